@@ -26,7 +26,7 @@ LEVEL = "model_checking"
 RULE = (
     "exhaustive enumeration: every pool element (DSL family incl. tuple items with/without additionalItems, object classes, "
     "anyOf/oneOf/allOf/not nested to depth 2 over typed, untyped and class members; the parser image of every <=1-atom lattice "
-    "schema and of every wrapper of a leaf) x 3 placements (optional property, required property, items of an array property) x "
+    "schema and of every wrapper of a leaf) x 4 placements (optional property, required property, items of an array property, required property added by a subclass after its parent was used) x "
     "every alphabet value the model accepts + the omitted case; the annotation text is taken from the generated property line, "
     "parsed with ast and judged structurally (Any, None, str, bool, int, float>=int, List[X], Union, Maybe[X] only place for the "
     "marker, class name => isinstance); non-trivial = (placement, value) pairs where the attribute is a container or model"
@@ -149,6 +149,15 @@ def judge(node, r, ns, top=False):
 
 def place(el, mode):
     cd = ObjectClassDict()
+    if mode == "required-in-subclass":
+        # the parent model is declared AND used first; the subclass then adds the required property
+        pcd = ObjectClassDict()
+        pcd["base"] = Property(Integer())
+        parent = ObjectMeta("Base", (Object,), pcd)
+        impl.do_call(parent, {"base": 1})
+        impl.do_call(parent, {})
+        cd["p"] = Property(el, required=True)
+        return ObjectMeta("Holder", (parent,), cd)
     if mode == "optional":
         cd["p"] = Property(el)
     elif mode == "required":
@@ -172,7 +181,7 @@ def check_element(st, label, factory, rank=0):
         if k != impl.ACCEPT:
             st.add("skipped_invalid_default")
             return
-    for mode in ("optional", "required", "items"):
+    for mode in ("optional", "required", "items", "required-in-subclass"):
         el = factory()
         try:
             model = place(el, mode)
@@ -229,7 +238,7 @@ def check_element(st, label, factory, rank=0):
 def plan(tier, seed):
     n = len(pool())
     chunk = 12
-    return {"items": [("els", lo, min(n, lo + chunk)) for lo in range(0, n, chunk)], "meta": {"pool": n, "placements": 3, "values": len(VALUES), "exhaustive": True}}
+    return {"items": [("els", lo, min(n, lo + chunk)) for lo in range(0, n, chunk)], "meta": {"pool": n, "placements": 4, "values": len(VALUES), "exhaustive": True}}
 
 
 def work(item):
